@@ -2,7 +2,7 @@
 From Coq Require Import String.
 From Coq Require Import ZArith List Bool.
 From LasV Require Import Lib.Base Lib.Layout Gen.GenHeaderLayout Gen.GenFormatBits Gen.GenDims Model.Las Model.LasSpec
-  Model.LasFast Proofs.HeaderLen Proofs.VlrProofs Proofs.HeaderProofs Proofs.WriterProofs Proofs.RoundTripProofs Proofs.AppendProofs Proofs.CrashProofs Proofs.CrashAppendProofs Proofs.LasFastProofs.
+  Model.LasFast Proofs.HeaderLen Proofs.VlrProofs Proofs.HeaderProofs Proofs.WriterProofs Proofs.RoundTripProofs Proofs.AppendProofs Proofs.CrashProofs Proofs.CrashAppendProofs Proofs.LasFastProofs Proofs.FaultProofs Proofs.FaultAppendProofs.
 Import ListNotations.
 Open Scope list_scope.
 Open Scope Z_scope.
@@ -71,6 +71,57 @@ Theorem C19_crash_safe_append : forall ap, ap_ok ap -> (forall s o x, 0 <= ap s 
 Proof. exact crash_safe_append. Qed.
 Print Assumptions C19_crash_safe_append.
 
+(* FAULT SEQUENCES. Some write_points calls of a writer session FAIL: `stored` bytes (any; none for the faults laspy is judged on when
+   the session goes on with more chunks) reach the destination at the current position, the call raises, the chunk is not counted and the
+   next point write starts at the same position (fault_writes); the session goes on - more chunks, the EVLRs at ANY position `epos` at or
+   behind the end of the accepted points (laspy: right behind what a torn last write left), the header rewrite. The harness checks this
+   discipline on the traces of the implementation. Every crash image of such a session is refused or read as a prefix of the ACCEPTED points *)
+Theorem C19_fault_safe : forall ap h vl fmt evs evl hb0 epos eb h' hb1 k j,
+  enc_header (with_stats h stats0) vl false = Ok hb0 ->
+  enc_vlrs true evl = Ok eb ->
+  final_hdr ap h vl fmt (accepted evs) evl = Ok h' ->
+  enc_header (with_stats (fst hb0) (stats_of_header h')) vl true = Ok hb1 ->
+  recs_ok (aint h' "point_size") (accepted evs) = true -> 0 < aint h' "point_size" ->
+  len (snd hb0) + len (concat (accepted evs)) <= epos ->
+  reads_prefix_or_fails (crash_image (fault_trace (snd hb0) evs epos eb (snd hb1)) k j) (accepted evs).
+Proof. exact fault_safe. Qed.
+Print Assumptions C19_fault_safe.
+
+(* in particular the file left when such a session has been closed normally *)
+Theorem C19_fault_final : forall ap h vl fmt evs evl hb0 epos eb h' hb1,
+  enc_header (with_stats h stats0) vl false = Ok hb0 ->
+  enc_vlrs true evl = Ok eb ->
+  final_hdr ap h vl fmt (accepted evs) evl = Ok h' ->
+  enc_header (with_stats (fst hb0) (stats_of_header h')) vl true = Ok hb1 ->
+  recs_ok (aint h' "point_size") (accepted evs) = true -> 0 < aint h' "point_size" ->
+  len (snd hb0) + len (concat (accepted evs)) <= epos ->
+  reads_prefix_or_fails (fold_left apply_write (fault_trace (snd hb0) evs epos eb (snd hb1)) []) (accepted evs).
+Proof. exact fault_final_safe. Qed.
+Print Assumptions C19_fault_final.
+
+(* the same for an append session with torn chunk writes on the file of A *)
+Theorem C19_fault_safe_append : forall ap, ap_ok ap -> (forall s o x, 0 <= ap s o x) ->
+  forall h vl fmt A evl evs f0 f1 hA h1 epos eb k j,
+  wf_las ap h vl fmt A evl -> wf_las ap h vl fmt (A ++ accepted evs) evl ->
+  file_of ap h vl fmt A evl = Ok f0 -> final_hdr ap h vl fmt A evl = Ok hA ->
+  file_of ap h vl fmt (A ++ accepted evs) evl = Ok f1 -> final_hdr ap h vl fmt (A ++ accepted evs) evl = Ok h1 ->
+  enc_vlrs true evl = Ok eb ->
+  let off := aint hA "offset_to_point_data" in
+  off + len (concat A) + len (concat (accepted evs)) <= epos ->
+  reads_prefix_or_fails
+    (crash_from f0 (fault_append_trace (off + len (concat A)) evs epos eb (firstn (Z.to_nat off) f1)) k j)
+    (A ++ accepted evs).
+Proof. exact fault_safe_append. Qed.
+Print Assumptions C19_fault_safe_append.
+
 Theorem C19_executable_twin : forall src, read_file_f src = read_file src.
 Proof. exact read_file_f_eq. Qed.
 Print Assumptions C19_executable_twin.
+
+(* non-vacuity of the fault-sequence statements: a concrete trace with a torn write between two accepted chunks *)
+Example C19_nonvacuous :
+  let r (x : Z) := le_enc 4 x ++ repeat 1 16 in
+  (fault_writes 227 [FOk [r 5]; FTorn [9; 9; 9]; FOk [r 7; r 8]],
+   len (accepted [FOk [r 5]; FTorn [9; 9; 9]; FOk [r 7; r 8]]))
+  = ([(227, r 5); (247, [9; 9; 9]); (247, r 7 ++ r 8)], 3).
+Proof. vm_compute. reflexivity. Qed.
